@@ -47,6 +47,9 @@ def plan(tier, seed):
     jobs += [{"name": "dflt%02d" % i, "spec": {"kind": "default", "n": 40 if q else 2500, "i": i}} for i in range(8)]
     jobs += [{"name": "unwrap%02d" % i, "spec": {"kind": "unwrap", "n": 80 if q else 5000, "i": i}} for i in range(8)]
     jobs += [{"name": "threads%02d" % i, "spec": {"kind": "threads", "rounds": 3 if q else 40}} for i in range(2 if q else 8)]
+    # the first ECC blocks of a process packed by several threads at once, recipients known by their PUBLIC keys only: nothing has
+    # multiplied a point before the threads start (fresh process per shard)
+    jobs += [{"name": "firstuse%02d" % i, "spec": {"kind": "firstuse", "i": i}} for i in range(3 if q else 24)]
     jobs += [{"name": "reuse%02d" % i, "spec": {"kind": "reuse", "n": 130 if q else 600, "i": i}} for i in range(2 if q else 6)]
     return jobs
 
@@ -54,7 +57,7 @@ def plan(tier, seed):
 def mandatory_bins(tier):
     b = ["sel_%d_explicit" % s for s in range(4)] + ["sel_%d_no_encryptors" % s for s in range(4)] + ["sel_%d_only_other_selectors" % s for s in range(4)] + ["sel_%d_default_encryptor_object" % s for s in range(4)]
     b += ["scalar_1", "scalar_2", "scalar_n-2", "scalar_n-1", "scalar_2^k", "scalar_2^k-1", "scalar_random", "key_trailing_zero", "key_all_zero", "model_block_opened_by_real_decryptor",
-          "whole_file_with_ecc_block", "published_keys_pinned", "explicit_recipients_created_before_first_default_use", "encryptors_given_as_one_shot_iterator", "encryptors_given_as_generator", "blocks_packed_by_concurrent_threads", "one_recipient_key_object_reused_for_many_blocks", "recipient_key_buffer_reused_by_the_caller_afterwards", "recipient_added_to_the_same_list_after_a_default_pack"]
+          "whole_file_with_ecc_block", "published_keys_pinned", "explicit_recipients_created_before_first_default_use", "encryptors_given_as_one_shot_iterator", "encryptors_given_as_generator", "blocks_packed_by_concurrent_threads", "one_recipient_key_object_reused_for_many_blocks", "recipient_key_buffer_reused_by_the_caller_afterwards", "recipient_added_to_the_same_list_after_a_default_pack", "first_blocks_of_the_process_packed_by_concurrent_threads"]
     b += ["invalid:" + c for c in INVALID_CLASSES]
     return b
 
@@ -493,9 +496,56 @@ def run_unwrap(ns, ctx, spec):
                 ctx.note("bytes_after_ciphertext_refused")
 
 
+def run_firstuse(ns, ctx, spec):
+    from ..sched import yieldrun
+
+    B = ns.bec2file
+    EC = ns.ellipticcurve
+    rng = ctx.rng
+    i = spec["i"]
+    nthreads = (2, 3, 4, 6)[i % 4]
+    codes = yieldrun.code_objects_of_module(ns.plugin, ns.crypto) + yieldrun.code_objects_of(B.EccEncryptor, B.InitEccAuthBlock, B.AuthBlock)
+    codes += [getattr(EC.PointJacobi, f).__code__ for f in ("_maybe_precompute", "__mul__", "_mul_precompute") if hasattr(EC.PointJacobi, f)]
+    privs = [rng.randrange(1, ecies.P256_N) for _ in range(nthreads)]
+    sels = [rng.randrange(4) for _ in range(nthreads)]
+    keys = [rng.randbytes(16) for _ in range(nthreads)]
+    # recipients from SubjectPublicKeyInfo written by the model: loading a public key multiplies nothing
+    encs = [B.EccEncryptor(sels[t], ns.crypto.create_public_ecc_key_from_der_fmt(ecies.spki_der(ecies.pub_of(privs[t])))) for t in range(nthreads)]
+
+    def body(t):
+        return lambda: B.InitEccAuthBlock(sels[t]).pack(keys[t], [encs[t]])
+
+    res, y = yieldrun.run_concurrently([body(t) for t in range(nthreads)], codes, sleep=0.0002, max_yields=6000, timeout=150, stagger=(0.0, 0.004, 0.015, 0.04, 0.1)[i % 5])
+    ctx.bin("first_blocks_of_the_process_packed_by_concurrent_threads")
+    ctx.mon("line_yields_injected", y)
+    ctx.mon("pack", nthreads)
+    for t, r in enumerate(res):
+        ctx.ev()
+        ctx.distinct("firstuse", i, privs[t], keys[t])
+        rp = {"kind": "firstuse", "i": i}
+        if r is None:
+            ctx.note("thread_still_running_after_timeout(inconclusive)")
+        elif r[0] == "exc":
+            ctx.violation("pack_raises", {"exc": r[1][:200], "how": "first blocks of the process packed by concurrent threads", "threads": nthreads}, rp)
+        else:
+            check_block(ctx, r[1], sels[t], privs[t], keys[t], rp, "first_blocks_of_the_process_packed_by_concurrent_threads")
+    # and again, one after the other
+    for t in range(nthreads):
+        ctx.ev()
+        try:
+            blk = body(t)()
+        except Exception as e:
+            ctx.violation("pack_raises", {"exc": fmt_exc(e), "how": "after the first blocks were packed by concurrent threads"}, {"kind": "firstuse", "i": i})
+            continue
+        check_block(ctx, blk, sels[t], privs[t], keys[t], {"kind": "firstuse", "i": i}, "after_first_blocks_packed_by_concurrent_threads")
+
+
 def run_shard(spec, ctx):
     ns = load()
     k = spec["kind"]
+    if k == "firstuse":
+        run_firstuse(ns, ctx, spec)
+        return
     if k == "wrap":
         run_wrap(ns, ctx, spec)
     elif k == "default":
@@ -511,7 +561,9 @@ def run_shard(spec, ctx):
 def replay(rec, ctx):
     ns = load()
     k = rec.get("kind")
-    if k == "reuse":
+    if k == "firstuse":
+        run_firstuse(ns, ctx, {"i": rec["i"]})
+    elif k == "reuse":
         run_reuse(ns, ctx, {"n": 130, "i": 0})
     elif k == "threads":
         run_threads(ns, ctx, {"rounds": 3})
